@@ -1,0 +1,11 @@
+//go:build verif
+// +build verif
+
+package bfe_server
+
+import (
+	"github.com/bfenetworks/bfe/bfe_http"
+)
+
+// VerifHttpProtoSet exposes httpProtoSet to the out-of-tree verification harness.
+func VerifHttpProtoSet(outreq *bfe_http.Request) { httpProtoSet(outreq) }
